@@ -141,6 +141,7 @@ Statement * ParseStatement::parse()
         case Statement::STMT_IMPORT:
         {
           IMPORTStatement * _s = IMPORTStatement::parse(p, ctx);
+          s = _s;
           (void) beyond_statement(_s);
           /* perform loading now */
           _s->loadModule(ctx);
